@@ -350,8 +350,8 @@ theorem good_processPdu {s : State} (g : Good s) (p : Pdu) (now : Nat) : Good (p
 
 theorem good_sendStep {s : State} (g : Good s) (now : Nat) (e : Ev) :
     Good (sendStep s now e) ∧ SentOk (sendStep s now e) := by
-  have g0 : Good { s with sent := none } := good_frame g rfl rfl rfl
-  have hs0 : ({ s with sent := none } : State).sent = none := rfl
+  have g0 : Good { s with sent := none, out := [] } := good_frame g rfl rfl rfl
+  have hs0 : ({ s with sent := none, out := [] } : State).sent = none := rfl
   simp only [sendStep]
   split
   · exact ⟨g0, sentOk_none rfl⟩
